@@ -20,7 +20,7 @@ struc ENV
   .mxcsr_out resd 1
   .cw_in     resw 1
   .cw_out    resw 1
-  .pad0      resd 1
+  .skew      resd 1   ; caller stack position class: rsp mod 64 at the call instruction = 64 - 16*skew (mod 64)
   .canary    resq CANARY_Q
   .stack_cap resq 1   ; pointer to DEAD bytes or 0
   .k         resq 8
@@ -60,6 +60,13 @@ vcall:
 	mov	rbx, rsi                    ; rbx = env for the set-up phase
 	stmxcsr	[rbx + ENV.mxcsr_in]
 	fnstcw	[rbx + ENV.cw_in]
+	; stack position class of the caller (all four ABI-legal values of rsp mod 64 occur over a sweep: routines that
+	; align their frame with `and rsp, -64` have 0..48 bytes of slack depending on it)
+	and	rsp, -64
+	mov	eax, [rbx + ENV.skew]
+	and	eax, 3
+	shl	eax, 4
+	sub	rsp, rax
 	; canary zone
 	sub	rsp, CANARY_Q*8
 	mov	rax, CANARY
